@@ -1,5 +1,6 @@
 import Gimli.Model.WLine
 import Gimli.Lemmas.Line
+import Gimli.Lemmas.LineDecode
 /-! Helper lemmas for C13: what the reader Model (`Gimli.Line`, C04) does with the instructions the
 writer Model (`Gimli.WLine`) emits. -/
 namespace Gimli.WLine
@@ -629,4 +630,397 @@ theorem advanceInstrs_special_range (m : Mode) (e : Enc) (la : Int) (oa : Nat) (
             13 + (pl - e.lineBase).toNat + po * e.lineRange := Nat.mod_eq_of_lt (by omega)
         omega
   · cases hF
+/-! ## file and directory tables -/
+
+theorem findIdx?_some {α : Type} (p : α → Bool) : ∀ (xs : List α) (i : Nat), findIdx? p xs = some i →
+    ∃ x, xs[i]? = some x ∧ p x = true ∧ ∀ j y, j < i → xs[j]? = some y → p y = false := by
+  intro xs
+  induction xs with
+  | nil => intro i h; simp [findIdx?] at h
+  | cons x xs ih =>
+    intro i h
+    rw [findIdx?] at h
+    by_cases hp : p x = true
+    · simp only [hp, ↓reduceIte, Option.some.injEq] at h
+      subst h
+      exact ⟨x, rfl, hp, fun j y hj => by omega⟩
+    · simp only [hp, Bool.false_eq_true, ↓reduceIte, Option.map_eq_some_iff] at h
+      obtain ⟨k, hk, rfl⟩ := h
+      obtain ⟨y, hy, hpy, hmin⟩ := ih k hk
+      refine ⟨y, by simpa using hy, hpy, ?_⟩
+      intro j z hj hz
+      cases j with
+      | zero => simp at hz; subst hz; simpa using hp
+      | succ j => exact hmin j z (by omega) (by simpa using hz)
+
+theorem findIdx?_none {α : Type} (p : α → Bool) : ∀ (xs : List α), findIdx? p xs = none →
+    ∀ x ∈ xs, p x = false := by
+  intro xs
+  induction xs with
+  | nil => intro _ x hx; simp at hx
+  | cons x xs ih =>
+    intro h y hy
+    rw [findIdx?] at h
+    by_cases hp : p x = true
+    · simp [hp] at h
+    · simp only [hp, Bool.false_eq_true, ↓reduceIte, Option.map_eq_none_iff] at h
+      rcases List.mem_cons.mp hy with rfl | hy
+      · simpa using hp
+      · exact ih h y hy
+
+theorem findIdx?_append_new {α : Type} (p : α → Bool) : ∀ (xs : List α) (y : α), findIdx? p xs = none →
+    p y = true → findIdx? p (xs ++ [y]) = some xs.length := by
+  intro xs
+  induction xs with
+  | nil => intro y _ hy; simp [findIdx?, hy]
+  | cons x xs ih =>
+    intro y h hy
+    rw [findIdx?] at h
+    by_cases hp : p x = true
+    · simp [hp] at h
+    · simp only [hp, Bool.false_eq_true, ↓reduceIte, Option.map_eq_none_iff] at h
+      simp only [List.cons_append, findIdx?, hp, Bool.false_eq_true, ↓reduceIte, ih y h hy,
+        Option.map_some, List.length_cons]
+
+theorem findIdx?_append_old {α : Type} (p : α → Bool) : ∀ (xs ys : List α) (i : Nat),
+    findIdx? p xs = some i → findIdx? p (xs ++ ys) = some i := by
+  intro xs
+  induction xs with
+  | nil => intro ys i h; simp [findIdx?] at h
+  | cons x xs ih =>
+    intro ys i h
+    rw [findIdx?] at h
+    by_cases hp : p x = true
+    · simp only [hp, ↓reduceIte, Option.some.injEq] at h
+      subst h
+      simp [findIdx?, hp]
+    · simp only [hp, Bool.false_eq_true, ↓reduceIte, Option.map_eq_some_iff] at h
+      obtain ⟨k, hk, rfl⟩ := h
+      simp [findIdx?, hp, ih ys k hk]
+
+/-- `setInfo` replaces the info of one entry and nothing else -/
+theorem setInfo_get (fs : List FileEnt) : ∀ (i : Nat) (info : FileInfo) (j : Nat),
+    (setInfo fs i info)[j]? = (fs[j]?).map (fun f => if j = i then { f with info := info } else f) := by
+  induction fs with
+  | nil => intro i info j; simp [setInfo]
+  | cons f fs ih =>
+    intro i info j
+    cases i with
+    | zero =>
+      cases j with
+      | zero => simp [setInfo]
+      | succ j => simp [setInfo]
+    | succ i =>
+      cases j with
+      | zero => simp [setInfo]
+      | succ j => simp [setInfo, ih i info j]
+
+theorem setInfo_length (fs : List FileEnt) : ∀ (i : Nat) (info : FileInfo),
+    (setInfo fs i info).length = fs.length := by
+  induction fs with
+  | nil => intro i info; simp [setInfo]
+  | cons f fs ih =>
+    intro i info
+    cases i with
+    | zero => simp [setInfo]
+    | succ i => simp [setInfo, ih i info]
+
+/-- the `IndexMap` key test of `add_file` -/
+def fkey (name : LineStr) (dir : Nat) : FileEnt → Bool := fun f => f.name == name && f.dir == dir
+
+theorem fkey_iff (name : LineStr) (dir : Nat) (f : FileEnt) :
+    fkey name dir f = true ↔ f.name = name ∧ f.dir = dir := by
+  simp [fkey]
+
+theorem findIdx?_setInfo (n : LineStr) (d : Nat) (fs : List FileEnt) : ∀ (i : Nat) (info : FileInfo),
+    findIdx? (fkey n d) (setInfo fs i info) = findIdx? (fkey n d) fs := by
+  induction fs with
+  | nil => intro i info; simp [setInfo]
+  | cons f fs ih =>
+    intro i info
+    cases i with
+    | zero => simp [setInfo, findIdx?, fkey]
+    | succ i => simp [setInfo, findIdx?, ih i info]
+
+/-- the files after `add_file` found the key at `i` -/
+def updInfo (fs : List FileEnt) (i : Nat) : Option FileInfo → List FileEnt
+  | some x => setInfo fs i x
+  | none => fs
+
+theorem addFile_unfold (p : Prog) (name : LineStr) (dir : Nat) (info : Option FileInfo) (p1 : Prog) (i : Nat)
+    (h : addFile p name dir info = .ok (p1, i)) :
+    (findIdx? (fkey name dir) p.files = some i ∧
+      p1 = { p with files := updInfo p.files i info }) ∨
+    (findIdx? (fkey name dir) p.files = none ∧ i = p.files.length ∧
+      p1 = { p with files := p.files ++ [{ name, dir, info := info.getD FileInfo.default }] }) := by
+  unfold addFile at h
+  split at h
+  · cases h
+  · split at h
+    · cases h
+    · have hk : (fun f : FileEnt => f.name == name && f.dir == dir) = fkey name dir := rfl
+      rw [hk] at h
+      cases hf : findIdx? (fkey name dir) p.files with
+      | some k =>
+        rw [hf] at h
+        left
+        cases info with
+        | some x =>
+          simp only [Out.ok.injEq, Prod.mk.injEq] at h
+          obtain ⟨rfl, rfl⟩ := h
+          exact ⟨rfl, rfl⟩
+        | none =>
+          simp only [Out.ok.injEq, Prod.mk.injEq] at h
+          obtain ⟨rfl, rfl⟩ := h
+          exact ⟨rfl, rfl⟩
+      | none =>
+        rw [hf] at h
+        right
+        simp only [Out.ok.injEq, Prod.mk.injEq] at h
+        obtain ⟨rfl, rfl⟩ := h
+        exact ⟨rfl, rfl, rfl⟩
+
+/-- after `add_file`, the key is found at the returned id (and nowhere before it) -/
+theorem addFile_find (p : Prog) (name : LineStr) (dir : Nat) (info : Option FileInfo) (p1 : Prog) (i : Nat)
+    (h : addFile p name dir info = .ok (p1, i)) : findIdx? (fkey name dir) p1.files = some i := by
+  rcases addFile_unfold p name dir info p1 i h with ⟨hf, hp⟩ | ⟨hf, hi, hp⟩
+  · subst hp
+    cases info with
+    | some x => simp only [updInfo]; rw [findIdx?_setInfo]; exact hf
+    | none => exact hf
+  · subst hp hi
+    exact findIdx?_append_new _ _ _ hf (by simp [fkey])
+
+/-- `add_file` keeps every existing entry at its index with its key; only the info of the
+returned entry can change -/
+theorem addFile_preserves (p : Prog) (name : LineStr) (dir : Nat) (info : Option FileInfo) (p1 : Prog) (i : Nat)
+    (h : addFile p name dir info = .ok (p1, i)) (j : Nat) (f : FileEnt) (hj : p.files[j]? = some f) :
+    ∃ f', p1.files[j]? = some f' ∧ f'.name = f.name ∧ f'.dir = f.dir ∧ (j ≠ i → f' = f) := by
+  rcases addFile_unfold p name dir info p1 i h with ⟨_, hp⟩ | ⟨_, _, hp⟩
+  · subst hp
+    cases info with
+    | some x =>
+      simp only [updInfo, setInfo_get, hj, Option.map_some]
+      by_cases hji : j = i
+      · exact ⟨_, rfl, by simp [hji], by simp [hji], fun hne => absurd hji hne⟩
+      · exact ⟨_, rfl, by simp [hji], by simp [hji], fun _ => by simp [hji]⟩
+    | none => exact ⟨f, hj, rfl, rfl, fun _ => rfl⟩
+  · subst hp
+    have hlt : j < p.files.length := by
+      rcases Nat.lt_or_ge j p.files.length with h | h
+      · exact h
+      · rw [List.getElem?_eq_none h] at hj; cases hj
+    exact ⟨f, by simp only; rw [List.getElem?_append_left hlt]; exact hj, rfl, rfl, fun _ => rfl⟩
+/-! ## instruction bytes -/
+
+theorem ofNat_toNat (n : Nat) (h : n < 256) : (UInt8.ofNat n).toNat = n := by
+  simp [Nat.mod_eq_of_lt h]
+
+/-- an extended opcode as the writer emits it: `0`, ULEB(1 + |payload|), sub-opcode, payload -/
+theorem parse_extended_bytes (h : Params) (sub : Nat) (payload rest : Bytes) (hlen : payload.length + 1 < 2 ^ 64) :
+    parseInstr h (0 :: (Leb.encodeU (1 + payload.length) ++ UInt8.ofNat sub :: payload) ++ rest) =
+      match parseExtended h (UInt8.ofNat sub :: payload) with
+      | .ok i => .ok (i, rest)
+      | .err e => .err e
+      | .panic w => .panic w
+      | .diverge => .diverge := by
+  have happ : (0 :: (Leb.encodeU (1 + payload.length) ++ UInt8.ofNat sub :: payload) ++ rest : Bytes) =
+      0 :: (Leb.encodeU (1 + payload.length) ++ ((UInt8.ofNat sub :: payload) ++ rest)) := by simp
+  rw [happ, parseInstr]
+  simp only [UInt8.toNat_ofNat, Nat.zero_mod, ↓reduceIte]
+  rw [Leb.unsigned_roundtrip _ (by omega)]
+  simp only
+  have ht : Ints.take (1 + payload.length) ((UInt8.ofNat sub :: payload) ++ rest) =
+      .ok (UInt8.ofNat sub :: payload, rest) := by
+    rw [Ints.take_ok _ _ (by simp; omega)]
+    have hl : (UInt8.ofNat sub :: payload).length = 1 + payload.length := by simp; omega
+    rw [List.take_left' hl, List.drop_left' hl]
+  rw [ht]
+  rfl
+
+
+/-- the header parameters under which written instructions are parsed back -/
+def WriterHeader (h : Params) : Prop :=
+  h.opcodeBase = 13 ∧ (h.addrSize = 1 ∨ h.addrSize = 2 ∨ h.addrSize = 4 ∨ h.addrSize = 8)
+
+/-- operands that fit the writer's own field types (`u8`, `u64`, `i64`, a constant address) -/
+def WInstr.Encodable (version : Nat) : WInstr → Prop
+  | .special op => 13 ≤ op ∧ op ≤ 255
+  | .advancePc n => n < 2 ^ 64
+  | .advanceLine i => -(2 ^ 63 : Int) ≤ i ∧ i < 2 ^ 63
+  | .setFile index => fileRaw version index < 2 ^ 64
+  | .setColumn n => n < 2 ^ 64
+  | .setIsa n => n < 2 ^ 64
+  | .setDiscriminator n => n < 2 ^ 64
+  | .setAddress (some a) => a < 2 ^ 64
+  | _ => True
+
+theorem instr_bytes_roundtrip_aux (h : Params) (hh : WriterHeader h) (i : WInstr)
+    (henc : i.Encodable h.version)
+    (hsig : ∀ v rest, i = .advanceLine v → Leb.signed (Leb.encodeS v ++ rest) = .ok (v, rest))
+    (bs : Bytes) (hw : writeInstr h.endian h.version h.addrSize i = .ok bs) (rest : Bytes) :
+    parseInstr h (bs ++ rest) = .ok (i.toInstr h.version, rest) := by
+  obtain ⟨hob, hasz⟩ := hh
+  cases i with
+  | special op =>
+    simp only [WInstr.Encodable] at henc
+    simp only [writeInstr, Out.ok.injEq] at hw
+    subst hw
+    simp only [List.cons_append, List.nil_append, parseInstr, ofNat_toNat op (by omega), hob,
+      WInstr.toInstr]
+    rw [if_neg (by omega), if_pos (by omega)]
+  | copy =>
+    simp only [writeInstr, Out.ok.injEq] at hw
+    subst hw
+    simp [parseInstr, hob, parseStandard, WInstr.toInstr]
+  | advancePc n =>
+    simp only [WInstr.Encodable] at henc
+    simp only [writeInstr, Out.ok.injEq] at hw
+    subst hw
+    simp [parseInstr, hob, parseStandard, WInstr.toInstr, Leb.unsigned_roundtrip n henc, mapRead]
+  | advanceLine v =>
+    simp only [writeInstr, Out.ok.injEq] at hw
+    subst hw
+    simp [parseInstr, hob, parseStandard, WInstr.toInstr, hsig v rest rfl, mapRead]
+  | setFile index =>
+    simp only [WInstr.Encodable] at henc
+    simp only [writeInstr, Out.ok.injEq] at hw
+    subst hw
+    simp [parseInstr, hob, parseStandard, WInstr.toInstr, Leb.unsigned_roundtrip _ henc, mapRead]
+  | setColumn n =>
+    simp only [WInstr.Encodable] at henc
+    simp only [writeInstr, Out.ok.injEq] at hw
+    subst hw
+    simp [parseInstr, hob, parseStandard, WInstr.toInstr, Leb.unsigned_roundtrip n henc, mapRead]
+  | negateStatement =>
+    simp only [writeInstr, Out.ok.injEq] at hw
+    subst hw
+    simp [parseInstr, hob, parseStandard, WInstr.toInstr]
+  | setBasicBlock =>
+    simp only [writeInstr, Out.ok.injEq] at hw
+    subst hw
+    simp [parseInstr, hob, parseStandard, WInstr.toInstr]
+  | constAddPc =>
+    simp only [writeInstr, Out.ok.injEq] at hw
+    subst hw
+    simp [parseInstr, hob, parseStandard, WInstr.toInstr]
+  | setPrologueEnd =>
+    simp only [writeInstr, Out.ok.injEq] at hw
+    subst hw
+    simp [parseInstr, hob, parseStandard, WInstr.toInstr]
+  | setEpilogueBegin =>
+    simp only [writeInstr, Out.ok.injEq] at hw
+    subst hw
+    simp [parseInstr, hob, parseStandard, WInstr.toInstr]
+  | setIsa n =>
+    simp only [WInstr.Encodable] at henc
+    simp only [writeInstr, Out.ok.injEq] at hw
+    subst hw
+    simp [parseInstr, hob, parseStandard, WInstr.toInstr, Leb.unsigned_roundtrip n henc, mapRead]
+  | endSequence =>
+    simp only [writeInstr, Out.ok.injEq] at hw
+    subst hw
+    have := parse_extended_bytes h 1 [] rest (by simp)
+    simp only [List.length_nil, Nat.add_zero] at this
+    have e1 : (UInt8.ofNat 1 : UInt8) = 1 := rfl
+    rw [e1] at this
+    rw [this]
+    simp [parseExtended, WInstr.toInstr]
+  | setAddress a =>
+    cases a with
+    | none => simp [writeInstr] at hw
+    | some a =>
+      simp only [writeInstr] at hw
+      cases hu : Ints.writeUdata h.endian a h.addrSize with
+      | ok ab =>
+        simp only [hu, Out.bind_ok, Out.pure_eq, Out.ok.injEq] at hw
+        subst hw
+        simp only [WInstr.Encodable] at henc
+        obtain ⟨hlen, hrd⟩ := Ints.writeUdata_roundtrip h.endian a h.addrSize ab [] hu henc
+        rw [List.append_nil] at hrd
+        have := parse_extended_bytes h 2 ab rest (by omega)
+        have e2 : (UInt8.ofNat 2 : UInt8) = 2 := rfl
+        rw [e2, hlen] at this
+        rw [this]
+        have hra : Ints.readAddress h.endian h.addrSize ab = .ok (a, []) := by
+          unfold Ints.readAddress
+          rw [if_pos hasz]; exact hrd
+        simp [parseExtended, hra, WInstr.toInstr]
+      | err e => simp [hu] at hw
+      | panic w => simp [hu] at hw
+      | diverge => simp [hu] at hw
+  | setDiscriminator n =>
+    simp only [WInstr.Encodable] at henc
+    simp only [writeInstr, Out.ok.injEq] at hw
+    subst hw
+    have hlen := (Leb.encodeU_spec n henc).2.2.1
+    have := parse_extended_bytes h 4 (Leb.encodeU n) rest (by omega)
+    have e4 : (UInt8.ofNat 4 : UInt8) = 4 := rfl
+    rw [e4] at this
+    rw [this]
+    have hrt := Leb.unsigned_roundtrip n henc []
+    rw [List.append_nil] at hrt
+    simp [parseExtended, hrt, WInstr.toInstr]
+
+theorem writeInstr_nonempty (en : Endian) (version addrSize : Nat) (i : WInstr) (bs : Bytes)
+    (h : writeInstr en version addrSize i = .ok bs) : 1 ≤ bs.length := by
+  cases i <;> simp only [writeInstr, Out.ok.injEq] at h <;> try (subst h; simp)
+  rename_i a
+  cases a with
+  | none => simp at h
+  | some a =>
+    simp only at h
+    cases hu : Ints.writeUdata en a addrSize with
+    | ok ab => simp only [hu, Out.bind_ok, Out.pure_eq, Out.ok.injEq] at h; subst h; simp
+    | err e => simp [hu] at h
+    | panic w => simp [hu] at h
+    | diverge => simp [hu] at h
+
+/-- a whole instruction list: what `LineInstructions::next_instruction` decodes from the written
+bytes is the list that was written -/
+theorem writeInstrs_decodeAll (h : Params) (hh : WriterHeader h) : ∀ (is : List WInstr)
+    (_henc : ∀ i ∈ is, i.Encodable h.version)
+    (_hsig : ∀ v rest, WInstr.advanceLine v ∈ is → Leb.signed (Leb.encodeS v ++ rest) = .ok (v, rest))
+    (bs : Bytes) (_hw : writeInstrs h.endian h.version h.addrSize is = .ok bs) (fuel : Nat)
+    (_hf : bs.length < fuel),
+    decodeAll h fuel bs = .ok (is.map (WInstr.toInstr h.version)) := by
+  intro is
+  induction is with
+  | nil =>
+    intro _ _ bs hw fuel hf
+    simp only [writeInstrs, Out.ok.injEq] at hw
+    subst hw
+    cases fuel with
+    | zero => omega
+    | succ f => simp [decodeAll]
+  | cons i is ih =>
+    intro henc hsig bs hw fuel hf
+    rw [writeInstrs] at hw
+    cases hb : writeInstr h.endian h.version h.addrSize i with
+    | ok b =>
+      cases hbs : writeInstrs h.endian h.version h.addrSize is with
+      | ok bs' =>
+        simp only [hb, hbs, Out.bind_ok, Out.pure_eq, Out.ok.injEq] at hw
+        subst hw
+        have hp := instr_bytes_roundtrip_aux h hh i (henc i (by simp))
+          (fun v rest hv => hsig v rest (by rw [hv]; simp)) b hb bs'
+        have hne := writeInstr_nonempty _ _ _ i b hb
+        cases fuel with
+        | zero => omega
+        | succ f =>
+          rw [decodeAll]
+          have hemp : (b ++ bs').isEmpty = false := by
+            cases b with
+            | nil => simp at hne
+            | cons => rfl
+          simp only [hemp, Bool.false_eq_true, ↓reduceIte, hp]
+          rw [ih (fun j hj => henc j (by simp [hj])) (fun v rest hv => hsig v rest (by simp [hv])) bs' hbs f
+            (by simp at hf; omega)]
+          rfl
+      | err e => simp [hb, hbs] at hw
+      | panic w => simp [hb, hbs] at hw
+      | diverge => simp [hb, hbs] at hw
+    | err e => simp [hb] at hw
+    | panic w => simp [hb] at hw
+    | diverge => simp [hb] at hw
 end Gimli.WLine
